@@ -1,13 +1,15 @@
 """C06 - Pipelines keep moving and heal themselves after restarts and stalls.
 
-Fault enumeration on simnet. For a topology of a small catalogue (chain-3, tee, tee-rejoin, balanced split/join) a fault-free
+Fault enumeration on simnet. For a topology of a small catalogue (chain-3, tee, tee-rejoin, balanced split/join, and three with an ephemeral
+attachment: a '?' viewer on a source, a consumer listing an ephemeral source first, a filter whose only source is ephemeral) a fault-free
 reference run is recorded; the victim (every filter) is hard-killed at a chosen *scheduling step* of that run and restarted after
 {0, 0.3 s, 2 s, 7 s > connection timeout} or never (only consumers that are not required outputs), or it falls silent (blocks in
 process()) for longer than the timeout; delays < 100 ms. Quick: generated (victim, step, delay) samples; thorough: every k-th step.
 Oracle: bounded liveness in virtual time - after the last fault event every live synchronized sink receives a new frame within
 B = 7 s (connection timeout + poll intervals + processing on the path) and again in the following 3 s; a publisher whose required
 output is missing publishes nothing from 0.6 s after the timeout until it is back; ordering still holds per sink incarnation;
-no filter ends with an exception.
+no filter ends with an exception. Aimed part: the filter behind / in the middle of an ephemeral link is killed after it has been up for a
+while, and again after three times that uptime: the time to recover must not grow with the uptime (metamorphic relation, tolerance 1.5 s).
 """
 from hypothesis import strategies as st
 
@@ -19,7 +21,8 @@ LEVEL = 'fault_enumeration'
 RULE = ('For each catalogued topology and generated speeds/delays (< 100 ms) a reference run gives the number of scheduling steps N; cases are (victim, '
         'kill step in [0, N), restart delay in {0, 300, 2000, 7000 ms, never}, or a silent stall of 6-8 s). The enumerated part walks every 100th step '
         '(quick) / every 4th step (thorough) of the reference run for every victim with restart delays {0, 7000}. Non-trivial = the victim had open '
-        'links with messages in flight or a buffered partial set at the kill, or the fault was a stall/never-restart. Distinct = distinct case value.')
+        'links with messages in flight or a buffered partial set at the kill, or the fault was a stall/never-restart. Distinct = distinct case value. '
+        'Part viewer_restarts: 36 aimed cells (3 topologies with an ephemeral link x 4 kill points x 3 restart delays), 6 of them repeated after 3x the uptime.')
 ASSUMPTIONS = ['socket model of DESIGN.md section 3.3; "fair schedule" = every runnable actor runs and every message is delivered, which the simulator guarantees',
                'liveness is bounded liveness in virtual time on sampled schedules; an adversarial infinite schedule is out of reach']
 BUDGET = {'quick': 90, 'thorough': 1200}
